@@ -884,6 +884,20 @@ ldb_lock_file(const char *filename, ldb_filelock_t **lock) {
 
   ldb_mutex_lock(&file_mutex);
 
+  /* POSIX record locks belong to the process, and closing any descriptor
+     of a file drops the process's lock on it. If this process already
+     holds the lock, it must be refused without opening (and closing)
+     another descriptor of the lock file. */
+  if (stat(filename, &st) == 0) {
+    id.dev = st.st_dev;
+    id.ino = st.st_ino;
+
+    if (rb_set_has(&file_set, &id)) {
+      ldb_mutex_unlock(&file_mutex);
+      return ENOLCK;
+    }
+  }
+
   fd = ldb_open(filename, O_RDWR | O_CREAT, 0644);
 
   if (fd < 0 || fstat(fd, &st) != 0)
